@@ -133,3 +133,63 @@ def writer_family(ck, tier, wd, rnd):
         ck.case(name)
     ck.extra["alloc_writer_runs"] = len(jobs); ck.extra["alloc_writer_process_ended"] = aborts
     return trace, owner, scripts_by
+
+
+def delta_family(ck, tier, wd, rnd):
+    """the documented update (scan, copy from a local source, ranged rounds) with every allocation of zchunk's own code
+    refused in turn; judged by the safety half of the Delta contract, as under I/O faults: a chunk marked valid has B's bytes
+    on disk, nothing outside the extents being filled changes, the source is untouched (scanf / copyf / round with
+    wellFormed = FALSE); completion is not demanded"""
+    from . import delta
+    trace = []; owner = []; scripts_by = {}
+    cA = [b""] + [corpus.text(rnd, n) for n in (300, 33000, 200, 4010)]
+    cB = [b""] + [cA[1], corpus.rand(rnd, 3500), cA[4], corpus.text(rnd, 150), cA[2], corpus.rand(rnd, 700)]
+    jobs = []
+    for comp in (0, 2):
+        A = ref.build_file(cA, comp_type=comp, hash_type=1, chunk_hash_type=3, level=3)[0]
+        B = ref.build_file(cB, comp_type=comp, hash_type=1, chunk_hash_type=3, level=3)[0]
+        for limit in (2, -1):
+            base = delta.Scenario("ad%d%s-base" % (comp, "L" if limit > 0 else "U"), wd, B, b"", sources=[A], limit=limit, frag=977)
+            base.write_files()
+            L = base.script().splitlines()
+            i0 = [i for i, l in enumerate(L) if l.startswith("ctx ")][0]
+            L.insert(i0, "alloc_arm 0"); L.insert(-1, "alloc_stats")
+            ev = common.run_driver("\n".join(L) + "\n", "plain")
+            st = [e for e in ev if e["op"] == "alloc_stats"]
+            n = st[0]["count"] if st else 0
+            if not n:
+                ck.notes.append("allocation family (update): no allocation counted; skipped"); continue
+            for k in _points(n, tier, rnd, 50):
+                for ln in (1, 100000):
+                    cid = "ad%d%s-a%d-%d" % (comp, "L" if limit > 0 else "U", k, ln)
+                    sc = delta.Scenario(cid, wd, B, b"", sources=[A], limit=limit, frag=977,
+                                        name="update (comp %d, limit %d), allocation %d of %d refused%s" % (comp, limit, k, n, "" if ln == 1 else " and every later one"))
+                    sc.write_files()
+                    lines = sc.script().splitlines()
+                    j0 = [i for i, l in enumerate(lines) if l.startswith("ctx ")][0]
+                    lines.insert(j0, "alloc_arm %d %d" % (k, ln))
+                    jobs.append((cid, sc, "\n".join(lines) + "\n"))
+    evs = common.by_case([e for part in common.run_driver_parallel(["".join(j[2] for j in jobs[i::12]) for i in range(12)], "plain", timeout=1800) for e in part])
+    ended = 0
+    for (cid, sc, s) in jobs:
+        t = delta.enrich(sc, evs.get(cid, []))
+        out = []
+        for x in t:
+            if x["op"] == "round":
+                x["wellFormed"] = False; x.pop("firederrTotal", None)
+            if x["op"] == "copy":
+                x["op"] = "copyf"
+            if x["op"] == "scan":
+                x["op"] = "scanf"
+            if x["op"] == "finish":
+                continue
+            if x["op"] == "Crash":
+                ended += 1
+                break                       # the process ended (or the header of B was refused): nothing more is promised
+            out.append(x)
+        for x in out:
+            trace.append(x); owner.append(cid)
+        scripts_by[cid] = (s, sc.name, delta.replay_files(sc))
+        ck.case(sc.name)
+    ck.extra["alloc_update_runs"] = len(jobs); ck.extra["alloc_update_process_ended"] = ended
+    return trace, owner, scripts_by
